@@ -32,7 +32,12 @@ def _gen_case(rng, thorough):
     cls = rng.choice(["RF", "RF", "ET"])
     n = rng.choice([2, 2, 3, 4, 5, 8, 13, 20, 35, 60] + ([100, 150, 200] if thorough or rng.random() < 0.15 else []))
     d = rng.randint(1, 6)
-    kind = rng.choice(["gauss", "gauss", "const", "dupX", "dupXY", "huge", "tiny", "mixedscale", "ints", "offset"])
+    kind = rng.choice(["gauss", "gauss", "const", "dupX", "dupXY", "huge", "tiny", "huge", "tiny", "mixedscale", "ints", "offset"])
+    # target scale 10^exp: half of the scaled cases at the moderate 1e-7..1e-12 / 1e7..1e12, the rest out to 1e+-120
+    exp = None
+    if kind in ("huge", "tiny"):
+        e = rng.randint(6, 12) if rng.random() < 0.6 else rng.randint(13, 120)
+        exp = e if kind == "huge" else -e
     kw = {
         "n_estimators": rng.choice([1, 2, 3, 5, 5, 7, 10, 10, 20, 50]) if rng.random() < 0.8 else rng.randint(1, 50),
         "bootstrap": rng.random() < 0.5,
@@ -48,6 +53,15 @@ def _gen_case(rng, thorough):
             kw["max_samples"] = rng.choice([0.8, 0.5])
     case = {"cls": cls, "n": n, "d": d, "kind": kind, "kw": kw, "seed": rng.randrange(1 << 30),
             "nq": rng.choice([3, 6, 10]), "n_jobs0": rng.choice([1, 1, 1, 4, 3, 2])}
+    if exp is not None:
+        # min_variance floors on the scale of the targets' variance (an aleatoric floor of 1e-3 would swamp a tiny-scale forest and
+        # make every statement about its epistemic part vacuous in doubles); several disagreeing trees
+        case["exp"] = exp
+        s2 = 10.0 ** (2 * exp)
+        case["minvars"] = [0.0, 0.0, s2 * 1e-3, s2 * 1e-6, s2 * 10.0]
+        kw["min_variance"] = rng.choice(case["minvars"])
+        if kw["n_estimators"] < 3 and rng.random() < 0.8:
+            kw["n_estimators"] = rng.choice([5, 7, 10, 20])
     case["history"] = _gen_history(rng, case)
     return case
 
@@ -72,7 +86,7 @@ def _gen_history(rng, case):
         if style == "njobs":
             op = {"op": "set_params", "n_jobs": 4 if nj == 1 else rng.choice([1, 4])}
         elif style == "minvar":
-            mv = rng.choice([v for v in MINVARS if v != case["kw"]["min_variance"]])
+            mv = rng.choice([v for v in case.get("minvars", MINVARS) if v != case["kw"]["min_variance"]] or [0.0])
             op = {"op": rng.choice(["set_params", "setattr"]), "min_variance": mv}
         elif style == "lifecycle":
             op = {"op": rng.choice(["clone_refit", "pickle", "predict"])}
@@ -81,9 +95,9 @@ def _gen_history(rng, case):
         else:
             r = rng.random()
             if r < 0.35:
-                op = {"op": "set_params", "min_variance": rng.choice(MINVARS), "n_jobs": rng.choice([1, 2, 3, 4, 4])}
+                op = {"op": "set_params", "min_variance": rng.choice(case.get("minvars", MINVARS)), "n_jobs": rng.choice([1, 2, 3, 4, 4])}
             elif r < 0.5:
-                op = {"op": "setattr", "min_variance": rng.choice(MINVARS)}
+                op = {"op": "setattr", "min_variance": rng.choice(case.get("minvars", MINVARS))}
             elif r < 0.65:
                 op = {"op": "predict", "form": rng.choice(FORMS)}
             elif r < 0.8:
@@ -113,9 +127,9 @@ def _data(case):
         X[n // 2:] = X[: n - n // 2]
         y[n // 2:] = y[: n - n // 2]
     elif kind == "huge":
-        y = y * 10.0 ** r.randint(6, 120)
+        y = y * 10.0 ** (case["exp"] if "exp" in case else r.randint(6, 120))
     elif kind == "tiny":
-        y = y * 10.0 ** (-r.randint(6, 120))
+        y = y * 10.0 ** (case["exp"] if "exp" in case else -r.randint(6, 120))
     elif kind == "mixedscale":
         y = y * 10.0 ** r.randint(-8, 8, size=n)
     elif kind == "ints":
@@ -483,7 +497,7 @@ def _load_corpus():
 def _stats(ck, case, res):
     n = res["checks"][0].get("n", 0)
     ck.count(f"cls:{case['cls']}")
-    ck.count(f"kind:{case['kind']}")
+    ck.count(f"kind:{case['kind']}" + ("" if "exp" not in case else ":1e%+d..%+d" % ((6, 12) if 6 <= case["exp"] <= 12 else (13, 120) if case["exp"] > 12 else (-12, -6) if case["exp"] >= -12 else (-120, -13))))
     ck.count(f"trees:{'1' if n == 1 else '2-5' if n <= 5 else '6-20' if n <= 20 else '21-50'}")
     ck.count(f"bootstrap:{case['kw']['bootstrap']}")
     ck.count(f"splitter:{case['kw'].get('splitter', 'ET')}")
@@ -496,7 +510,7 @@ def _stats(ck, case, res):
         if nj > 1:
             ck.count("check:n_jobs>1," + ("n_trees%n_jobs!=0" if c["n"] % nj else "n_trees%n_jobs==0"))
             ck.count("order_parallel:" + ("unobserved" if not c["order_ok"] else "identity" if c["order"] == list(range(c["n"])) else "permuted"))
-        ck.count(f"minvar:{c['minvar']}")
+        ck.count("minvar:" + (f"{c['minvar']}" if "exp" not in case else "0" if c["minvar"] == 0 else "relative-to-target-scale"))
         ck.count("query_points", res["nq"])
     ops = [o["op"] for o in (case.get("history") or _default_history(case))[1:]]
     ck.count("history:" + (",".join(sorted(set(ops))) or "none"))
